@@ -32,17 +32,19 @@ Base(p, sd, lim, enc, b, c, t, tr) ==
 
 BLen(b) == Sum([raw |-> FALSE], b, Len(b))
 Tails(b, c) == IF c > BLen(b) THEN {"eof"} ELSE {"eof", "ueof", "err"}
+\* the context ending while the response is being received (client side)
+TailsOn(sd, b, c) == Tails(b, c) \cup (IF sd = "client" /\ c <= BLen(b) THEN {"ctxc", "ctxd"} ELSE {})
 Trs(p, sd, b, c, t) == IF p = "grpc" /\ sd = "client" /\ t = "eof" /\ c >= BLen(b) THEN {"none", "ok", "err"} ELSE {"none"}
 
 StreamInit ==
   \E p \in {"connect", "grpc", "grpcweb"}, sd \in {"client", "handler"}, lim \in {0, 3, 5}, enc \in {"none", "gzip"} :
-    \E b \in Bodies(p) : \E c \in 0..(BLen(b) + 1) : \E t \in Tails(b, c) : \E tr \in Trs(p, sd, b, c, t) :
+    \E b \in Bodies(p) : \E c \in 0..(BLen(b) + 1) : \E t \in TailsOn(sd, b, c) : \E tr \in Trs(p, sd, b, c, t) :
       InitWith(Base(p, sd, lim, enc, b, c, t, tr))
 
 RawFrames == {Msg(1), Big(1), Zero, Bad, CMsg(1), CBad}
 RawInit ==
   \E sd \in {"client", "handler"}, lim \in {0, 3, 5}, enc \in {"none", "gzip"}, f \in RawFrames :
-    \E c \in 0..(f.len + 1) : \E t \in Tails(<<[len |-> f.len - 5]>>, c) :
+    \E c \in 0..(f.len + 1) : \E t \in TailsOn(sd, <<[len |-> f.len - 5]>>, c) :
       /\ (enc = "none" <=> ~Compressed(f.flag))   \* unary Connect: the header alone says "compressed"
       /\ InitWith([proto |-> "connect", side |-> sd, shape |-> "unary", raw |-> TRUE, reuse |-> FALSE, limit |-> lim,
                    enc |-> enc, frames |-> <<f>>, cut |-> c, tail |-> t, trailers |-> "none"])
